@@ -652,6 +652,12 @@ func randomOps(r *rng.R, k int) []op {
 					ops = append(ops, opReadRespond(et, b, wv.Gen(r, wv.TStruct, cfg, 0)))
 					continue
 				}
+				if r.Chance(1, 6) {
+					// the shortest request there is: the bare empty struct, one byte (the request
+					// reader peeks at two)
+					ops = append(ops, opReadRequest(et, []byte{0}))
+					continue
+				}
 				switch r.Intn(3) {
 				case 0:
 					ops = append(ops, opEnvDecode(b))
@@ -945,6 +951,108 @@ func mergeRound(r *rng.R, k int, res *result) {
 		Op: fmt.Sprintf("XM %d %s %s", k, strings.Join(opParts, " "), strings.Join(ord, ","))})
 }
 
+// ---- plugins behind the real transport handles ----
+
+// memPlugin is a conforming plugin served in-process: envelope server over the multiplexer over
+// the handlers of plugin/api, reached through verifhook.NewTransportHandle like a real plugin.
+type memPlugin struct {
+	name  string
+	files map[string][]byte
+	spin  int
+	mu    sync.Mutex
+	roots [][]api.ServiceID // RootServices of every Generate request received
+}
+
+func (p *memPlugin) Goodbye() error { return nil }
+func (p *memPlugin) Handshake(*api.HandshakeRequest) (*api.HandshakeResponse, error) {
+	return &api.HandshakeResponse{Name: p.name, APIVersion: api.APIVersion, Features: []api.Feature{api.FeatureServiceGenerator}}, nil
+}
+func (p *memPlugin) Generate(req *api.GenerateServiceRequest) (*api.GenerateServiceResponse, error) {
+	for i := 0; i < p.spin; i++ {
+		runtime.Gosched()
+	}
+	p.mu.Lock()
+	p.roots = append(p.roots, append([]api.ServiceID(nil), req.RootServices...))
+	p.mu.Unlock()
+	return &api.GenerateServiceResponse{Files: p.files}, nil
+}
+
+type memTransport struct{ srv verifhook.EnvelopeServer }
+
+func (t memTransport) Send(b []byte) ([]byte, error) { return t.srv.Handle(b) }
+
+// transportRound: K plugins behind transport handles are given ONE request by
+// MultiServiceGenerator, concurrently. Every plugin must receive the request as the caller built
+// it, the caller's request must be unchanged afterwards, and nothing may be lost in the merge.
+func transportRound(r *rng.R, k int, res *result) {
+	if k > 16 {
+		k = 16
+	}
+	var msg verifhook.MultiServiceGenerator
+	var plugins []*memPlugin
+	all := map[string]string{}
+	for i := 0; i < k; i++ {
+		p := &memPlugin{name: fmt.Sprintf("p%d", i), files: map[string][]byte{}, spin: r.Intn(20)}
+		for f := 1 + r.Intn(3); f > 0; f-- {
+			path := fmt.Sprintf("p%d/f%d.go", i, f)
+			p.files[path] = []byte(fmt.Sprintf("%d-%d", i, f))
+			all[path] = string(p.files[path])
+		}
+		mh := verifhook.NewMultiplexHandler()
+		mh.Put("Plugin", api.NewPluginHandler(p))
+		mh.Put("ServiceGenerator", api.NewServiceGeneratorHandler(p))
+		h, err := verifhook.NewTransportHandle(p.name, memTransport{verifhook.NewEnvelopeServer(binary.Default, mh)})
+		if err != nil {
+			res.Mismatches = append(res.Mismatches, mismatch{Kind: "C18 handshake with a conforming in-process plugin failed", Input: p.name, Got: err.Error()})
+			return
+		}
+		msg = append(msg, h.ServiceGenerator())
+		plugins = append(plugins, p)
+	}
+	// a request whose root services are NOT in ascending order
+	nsvc := 2 + r.Intn(40)
+	req := &api.GenerateServiceRequest{Services: map[api.ServiceID]*api.Service{}, Modules: map[api.ModuleID]*api.Module{1: {ImportPath: "example.com/m", Directory: "m"}}}
+	for i := nsvc; i >= 1; i-- {
+		id := api.ServiceID(i*7%nsvc + 1)
+		if _, dup := req.Services[id]; dup {
+			continue
+		}
+		req.RootServices = append(req.RootServices, id)
+		req.Services[id] = &api.Service{Name: fmt.Sprintf("S%d", id), ThriftName: fmt.Sprintf("S%d", id), Functions: []*api.Function{}, ModuleID: 1}
+	}
+	want := append([]api.ServiceID(nil), req.RootServices...)
+	resp, err := msg.Generate(req)
+	input := fmt.Sprintf("K=%d roots=%v", k, want)
+	same := func(a, b []api.ServiceID) bool {
+		if len(a) != len(b) {
+			return false
+		}
+		for i := range a {
+			if a[i] != b[i] {
+				return false
+			}
+		}
+		return true
+	}
+	switch {
+	case err != nil:
+		res.Mismatches = append(res.Mismatches, mismatch{Kind: "C18 fan-out to conforming plugins failed", Input: input, Got: err.Error()})
+	case !same(req.RootServices, want):
+		res.Mismatches = append(res.Mismatches, mismatch{Kind: "C18 the caller's request was changed by the fan-out", Input: input, Got: fmt.Sprint(req.RootServices), Want: fmt.Sprint(want)})
+	default:
+		for _, p := range plugins {
+			if len(p.roots) != 1 || !same(p.roots[0], want) {
+				res.Mismatches = append(res.Mismatches, mismatch{Kind: "C18 a plugin did not receive the request as built", Input: input + " plugin " + p.name, Got: fmt.Sprint(p.roots), Want: fmt.Sprint(want)})
+				break
+			}
+		}
+		if len(resp.Files) != len(all) {
+			res.Mismatches = append(res.Mismatches, mismatch{Kind: "C18 merge lost or invented files", Input: input, Got: fmt.Sprint(len(resp.Files)), Want: fmt.Sprint(len(all))})
+		}
+	}
+	res.Hist["transport-backed fan-out"]++
+}
+
 func main() {
 	seed := flag.Uint64("seed", 1, "seed")
 	tier := flag.String("tier", "quick", "quick|thorough")
@@ -1045,6 +1153,7 @@ func main() {
 				res.Hist[fmt.Sprintf("K=%d", k)]++
 				sendRound(r, k, res)
 				mergeRound(r, k, res)
+				transportRound(r, k, res)
 			}
 		}
 	}
